@@ -1,4 +1,6 @@
 import CrdtModel.Audit.Tool
+import CrdtModel.Props.Addenda
+import CrdtModel.Witness.NestedMore
 import CrdtModel.Props.SysList
 import CrdtModel.Props.C13
 #audit_ns Crdt.C13
